@@ -1,0 +1,15 @@
+//go:build verif
+
+package hls
+
+import "github.com/q191201771/naza/pkg/filesystemlayer"
+
+// Hooks for the external verification harness. Compiled only with `-tags verif`.
+
+// VerifSetFileSystemLayer installs fsl as the file system layer used by the HLS muxer and
+// returns the previous one.
+func VerifSetFileSystemLayer(fsl filesystemlayer.IFileSystemLayer) filesystemlayer.IFileSystemLayer {
+	prev := fslCtx
+	fslCtx = fsl
+	return prev
+}
